@@ -104,10 +104,12 @@ func (fc *FuncCtx) eval1(st *State, e ast.Expr) Term {
 	case *ast.ParenExpr:
 		return fc.eval(st, x.X)
 	case *ast.Ident:
+		fc.ownUse(st, x)
 		return fc.evalIdent(st, x)
 	case *ast.BasicLit:
 		fc.fail(e, "non-constant literal")
 	case *ast.SelectorExpr:
+		fc.ownUse(st, x)
 		return fc.evalSelector(st, x)
 	case *ast.StarExpr:
 		p := fc.eval(st, x.X)
@@ -593,8 +595,9 @@ func (fc *FuncCtx) bitOr(st *State, a, b Term, t types.Type, n ast.Node) Term {
 		la = lb
 	}
 	if la > 0 {
-		fc.oblige(st, "disjoint.or", "", "(and (<= 0 "+b.S+") (< "+b.S+" "+pow2(la)+"))", n, "operands of | have disjoint bits")
-		return Term{S: "(+ " + a.S + " " + b.S + ")", T: t}
+		// exact when the low operand fits below the high operand's zero bits, opaque otherwise
+		op := fc.bitOpaque(st, "|", a, b, t)
+		return Term{S: ite("(and (<= 0 "+b.S+") (< "+b.S+" "+pow2(la)+"))", "(+ "+a.S+" "+b.S+")", op.S), T: t}
 	}
 	if v, ok := isLiteral(b.S); ok && v.Sign() == 0 {
 		return a
